@@ -39,7 +39,28 @@ Unparseable(d) == d.parse \in {"trunc", "header1", "unknownkind", "garbage"}
 NoneC == [kind |-> "none"]
 Held(c) == c.kind # "none"
 
-PayOk(p) == p.sigs /\ p.self /\ p.close /\ p.fresh /\ p.chain /\ p.addr
+\* ---- the six payment conditions.  A proof p carries, besides the six booleans,
+\*   mode    how the payment contract answers verifyPayment for the proof's quotes:
+\*           "ok" every quote valid and paid | "allBad" none | "ownBadOnly" only this node's quote invalid |
+\*           "otherBadOnly" only another payee's quote invalid | "ownAmountZero" this node's quote valid, amount paid 0 |
+\*           "jsonrpcError" "http500" "emptyResult" "shortData" "closeSocket": the contract cannot be asked / answers garbage
+\*   shape   "std" three payees, one quote each | a payee listed twice | two quotes of this node | "n1" "n2" "n4" "n5" quotes
+\*   pos, selfIdx, edge: WHERE in the proof the failing quote / this node's quote / the farthest payee sit (no semantic weight)
+\* "the payment is confirmed by the payment contract" (C03).  What the node can learn from the contract is the answer of
+\* verifyPayment: three results (quoteHash, amountPaid, isValid).  evmlib's verify_data_payment takes the payment as
+\* confirmed iff every result the contract returns is valid, and only REPORTS the amount paid to this node's own quotes;
+\* the client of this code base pays three of five quoted nodes and uploads to all five (autonomi/src/client/quote.rs),
+\* so "valid, nothing paid to me" is an answer the protocol produces for honest uploads.  Hence:
+\*   p.chain = FALSE (definitely NOT confirmed): the contract reports this node's own quote invalid, or every quote invalid,
+\*             or gives no usable answer at all -- nothing may be stored;
+\*   p.chain = TRUE and mode "ok" on a three-quote proof: confirmed;
+\*   OPEN (the statement does not decide; either outcome is accepted): only ANOTHER payee's quote is invalid; this node's
+\*             quote is valid with amount 0; proofs with 1, 2, 4 or 5 quotes (the contract answers for three of them only).
+PayBad(p) == ~p.sigs \/ ~p.self \/ ~p.close \/ ~p.fresh \/ ~p.chain \/ ~p.addr
+OpenModes == {"otherBadOnly", "ownAmountZero"}
+OpenShapes == {"n1", "n2", "n4", "n5"}
+PayOpen(p) == ~PayBad(p) /\ (p.mode \in OpenModes \/ p.shape \in OpenShapes)
+PayOk(p) == ~PayBad(p) /\ ~PayOpen(p)
 
 \* Is the delivery entitled to create / update content at its address, leaving the content's own
 \* validity aside?  (C03: new data from a client only with a fully valid payment; unpaid uploads only
@@ -53,6 +74,9 @@ Entitled(d, before) ==
             PayOk(d.pay) \/ (d.heldIdx /\ Base(d.kind) \in {"txs", "reg"})
       [] d.path = "client" /\ d.kind \in {"Scratchpad", "Register"} -> d.heldIdx
       [] OTHER -> FALSE
+
+\* the statement leaves open whether this upload's payment counts as confirmed
+MaybeEntitled(d, before) == d.path = "client" /\ d.kind \in PaidKinds /\ PayOpen(d.pay)
 
 GoodTxs(d) == {t.id : t \in {x \in d.txs : x.ok}}
 GoodOps(d) == {o.id : o \in {x \in d.ops : x.ok}}
@@ -81,26 +105,38 @@ Applied(d, before) ==
 \* scratchpad, a stored transaction set only grows, immutable data stays -- such a delivery changes nothing
 CrossKind(d, before) == Held(before) /\ before.kind # Base(d.kind)
 Allowed(d, before) ==
-    IF Unparseable(d) \/ ~d.keyOk \/ d.path = "kadput" \/ ~Entitled(d, before) \/ CrossKind(d, before)
-    THEN {before}
-    ELSE Applied(d, before)
+    IF Unparseable(d) \/ ~d.keyOk \/ d.path = "kadput" \/ CrossKind(d, before) THEN {before}
+    ELSE IF Entitled(d, before) THEN Applied(d, before)
+    ELSE IF MaybeEntitled(d, before) THEN {before} \cup Applied(d, before)
+    ELSE {before}
 
 \* ---------------------------------------------------------------------- observed step
 \* x: [d, res ("Ok" | "Err..."), beforeD, afterD (content under the derived key), beforeP, afterP (content
 \*     under the presented key, = the D fields when keyOk), gained (keys newly listed), lost (keys no
 \*     longer listed), derivedOK (every stored entry's own derived key equals the key it is stored under),
-\*     contentOK (stored pads / transactions / operations all verify), unverified (events emitted by put)]
+\*     contentOK (stored pads / transactions / operations all verify and no entry is stored twice),
+\*     unverified (events emitted by put), unvSame (each of them carries the presented record, key and bytes),
+\*     viaKad (a "client" delivery that entered through RecordStore::put and was validated from its event),
+\*     exp (what the contract must be asked: one digest of (quote hash, metrics words, rewards address) per quote of
+\*     the proof, in order, computed by the driver on its own), calls (what the contract WAS asked, per call, same digests)]
 IsErr(res) == res # "Ok"
 
 \* C03 -------------------------------------------------------------------
 \* "persists data uploaded by a client at an address it does not yet hold only if <six conditions>"
 C03_PaidOnly(x) ==
     (x.d.path = "client" /\ (x.gained # {} \/ (~Held(x.beforeD) /\ Held(x.afterD)))) =>
-        /\ x.d.kind \in PaidKinds /\ PayOk(x.d.pay) /\ x.d.keyOk /\ ~Unparseable(x.d)
+        /\ x.d.kind \in PaidKinds /\ ~PayBad(x.d.pay) /\ x.d.keyOk /\ ~Unparseable(x.d)
 \* "if any one of these fails, nothing is stored and the upload is rejected"
 C03_RejectOtherwise(x) ==
-    (x.d.path = "client" /\ x.d.kind \in PaidKinds /\ ~Held(x.beforeD) /\ ~PayOk(x.d.pay)) =>
+    (x.d.path = "client" /\ x.d.kind \in PaidKinds /\ ~Held(x.beforeD) /\ PayBad(x.d.pay)) =>
         /\ IsErr(x.res) /\ x.afterD = x.beforeD /\ x.gained = {} /\ x.lost = {}
+\* "the payment is confirmed by the payment contract": data newly stored from a paid upload => the contract was asked, and
+\* asked about exactly this proof -- every quote's hash, metrics and rewards address, in the proof's order
+NewlyStored(x) == x.gained # {} \/ (~Held(x.beforeD) /\ Held(x.afterD))
+C03_ContractSawProof(x) ==
+    (x.d.path = "client" /\ x.d.kind \in PaidKinds /\ NewlyStored(x)) =>
+        /\ Len(x.calls) >= 1
+        /\ \A i \in 1..Len(x.calls) : x.calls[i] = x.exp
 \* "uploads without payment are accepted only as updates to mutable records the node already holds"
 C03_UnpaidOnlyUpdates(x) ==
     (x.d.path = "client" /\ x.d.kind \in UnpaidKinds) =>
@@ -122,8 +158,11 @@ C04_MismatchRejected(x) ==
 C04_NotReadableBeforeValidation(x) ==
     x.d.path = "kadput" =>
         /\ x.afterD = x.beforeD /\ x.afterP = x.beforeP /\ x.gained = {} /\ x.lost = {}
-        /\ (x.d.parse = "oversize" => IsErr(x.res) /\ x.unverified = 0)
+        /\ (x.d.parse \in {"oversize", "max"} => IsErr(x.res) /\ x.unverified = 0)
         /\ (x.d.parse \in {"trunc", "header1", "unknownkind"} => x.unverified = 0)
+\* what validation gets to see is the record that arrived, once
+C04_ValidatesPresentedRecord(x) ==
+    (x.d.path = "kadput" \/ x.viaKad) => x.unverified <= 1 /\ x.unvSame
 C04_UnparseableRefused(x) ==
     (x.d.path # "kadput" /\ Unparseable(x.d)) => IsErr(x.res) /\ x.afterD = x.beforeD /\ x.gained = {}
 
@@ -151,12 +190,14 @@ D0pad == D0base
 D0txs == [D0base EXCEPT !.kind = "Transaction"]
 D0reg == [D0base EXCEPT !.kind = "Register"]
 
-Clauses == {"C03_PaidOnly", "C03_RejectOtherwise", "C03_UnpaidOnlyUpdates", "C04_StoredUnderDerivedKey",
-            "C04_MismatchRejected", "C04_NotReadableBeforeValidation", "C04_UnparseableRefused",
+Clauses == {"C03_PaidOnly", "C03_RejectOtherwise", "C03_UnpaidOnlyUpdates", "C03_ContractSawProof", "C04_StoredUnderDerivedKey",
+            "C04_MismatchRejected", "C04_NotReadableBeforeValidation", "C04_UnparseableRefused", "C04_ValidatesPresentedRecord",
             "C07_Applied", "C07_ScratchpadMonotone", "C07_GrowOnly", "C07_OnlyValid"}
 Holds(c, x) == CASE c = "C03_PaidOnly" -> C03_PaidOnly(x)
                  [] c = "C03_RejectOtherwise" -> C03_RejectOtherwise(x)
                  [] c = "C03_UnpaidOnlyUpdates" -> C03_UnpaidOnlyUpdates(x)
+                 [] c = "C03_ContractSawProof" -> C03_ContractSawProof(x)
+                 [] c = "C04_ValidatesPresentedRecord" -> C04_ValidatesPresentedRecord(x)
                  [] c = "C04_StoredUnderDerivedKey" -> C04_StoredUnderDerivedKey(x)
                  [] c = "C04_MismatchRejected" -> C04_MismatchRejected(x)
                  [] c = "C04_NotReadableBeforeValidation" -> C04_NotReadableBeforeValidation(x)
